@@ -43,6 +43,15 @@ def run(ctx, *, mine, designs, gens, relevant, rule, extra_traces=None, must_hit
         for c in v["failed"]:
             if not c.startswith(mine):
                 other[c] = other.get(c, 0) + 1
+                if other[c] == 1:
+                    import os
+
+                    from ..common import VERIF
+
+                    os.makedirs(os.path.join(VERIF, "replays"), exist_ok=True)
+                    t = byid[tid]
+                    with open(os.path.join(VERIF, "replays", "other-%s-%s.json" % (ctx.pid, c)), "w") as fh:
+                        json.dump({"verdict": v, "trace": {k: t[k] for k in ("backend", "wf", "variant", "sub")}, "events": t["events"][: v["step"]], "hist": t["hist"]}, fh, indent=1)
     if other:
         print("note: clauses of other properties failed in these traces (reported by their own checks): %s" % other)
     hits = {}
